@@ -54,6 +54,12 @@ def main():
             if rc_apply != 0:
                 rc_apply, out_apply = sh("patch -p1 < %s" % os.path.join(src, d), cwd=scratch)
             rc_tests, out_tests = sh("%s -m pytest -q -p no:cacheprovider -x" % PY, cwd=scratch, env={"PYTHONPATH": scratch}, timeout=900)
+            for _ in range(3):
+                if rc_tests == 0:
+                    break
+                # the pinned suite has wall-clock tests (tests/test_rt.py) that fail on a loaded machine: try again
+                time.sleep(20)
+                rc_tests, out_tests = sh("%s -m pytest -q -p no:cacheprovider -x" % PY, cwd=scratch, env={"PYTHONPATH": scratch}, timeout=900)
             rc_demo, out_demo = sh("%s %s" % (PY, demo), cwd=scratch, env={"PYTHONPATH": scratch}, timeout=300)
             checks = {}
             for c in [pid] + also:
